@@ -26,9 +26,12 @@ TEXT = {
     "C06.marks": "S_::deepExit calls planData.clearTaskStatus(STATE_ID) after the user's exit; clearTaskStatus clears both the success and the failure bit of the "
                  "state; clearStatuses clears successes, failures, head and sub statuses; A_::planSucceeded/planFailed defaults call control.succeed()/fail(); "
                  "TaskStatus::Result is ordered NONE < SUCCESS < FAILURE and | / |= take the maximum",
+    "C06.defaults": "an anonymous (head-less) region head behaves like a head state that overrides nothing: S_<empty>::wrapPlanSucceeded / wrapPlanFailed make "
+                    "the control calls the A_ defaults planSucceeded() / planFailed() make (succeed() / fail(): the result is passed on to the enclosing "
+                    "region), under an origin scope naming the region head",
     "C06.siblings": "the payload and void copies of updatePlan and of the PlanDataT members agree statement for statement modulo the payload arm",
 }
-MIN_INSTANCES = {"C06.task-fields": 1, "C06.exec-guards": 1, "C06.routing": 3, "C06.status-accumulators": 8, "C06.marks": 5, "C06.siblings": 3}
+MIN_INSTANCES = {"C06.defaults": 2, "C06.task-fields": 1, "C06.exec-guards": 1, "C06.routing": 3, "C06.status-accumulators": 8, "C06.marks": 5, "C06.siblings": 3}
 
 
 def declare(ctx):
@@ -50,9 +53,31 @@ def check(ctx, F):
     check_accumulators(ctx, F)
     check_marks(ctx, F)
     check_siblings(ctx, F)
+    check_defaults(ctx, F)
     # "in order ... no earlier task of that plan": the order is the plan's link list; its maintenance is shared with C07 (same rule instances)
     from . import C07, C03
     C07.check_link(C03._Alias(ctx, {"C07.link": "C06.exec-guards"}), F)
+
+
+def check_defaults(ctx, F):
+    want = {}
+    for fid, b in insts(F, "A_", {"planSucceeded", "planFailed"}):
+        calls = sorted(set(F.fn(x["f"])["name"] for x in walk(b["body"]) if x.get("k") == "call" and "f" in x and (F.fn(x["f"]).get("cls") or "").startswith("FullControl")))
+        want.setdefault(b["name"], calls)
+    for fid, b in insts(F, "S_", {"wrapPlanSucceeded", "wrapPlanFailed"}, spec="empty"):
+        site = "S_<empty>::" + b["name"]
+        dflt = want.get("plan" + b["name"][8:])
+        if dflt is None:
+            continue
+        calls = sorted(set(F.fn(x["f"])["name"] for x in walk(b["body"]) if x.get("k") == "call" and "f" in x and (F.fn(x["f"]).get("cls") or "").startswith("FullControl")))
+        scoped = any(x.get("k") == "decl" and any("Origin" in (v.get("t") or "") or (F.type(v.get("tid")) or {}).get("name") == "Origin" for v in x["vars"]) for x in walk(b["body"]))
+        ctx.instance("C06.defaults", site, {"function": site, "loc": F.floc(fid), "control_calls": calls, "default_of_a_head_that_overrides_nothing": dflt})
+        if calls != dflt:
+            ctx.violation("C06.defaults", site, "%s (%s)" % (site, F.floc(fid)),
+                          "%s makes the control calls %s; the default %s() of a head that overrides nothing makes %s: a head-less region does not pass its "
+                          "plan's result on to the enclosing region" % (site, calls, "plan" + b["name"][8:], dflt), {})
+        elif dflt and not scoped:
+            ctx.violation("C06.defaults", site + "/origin", "%s (%s)" % (site, F.floc(fid)), "%s reports the result without an origin scope naming the region head" % site, {})
 
 
 def payload_flavour(F, b):
